@@ -32,11 +32,33 @@ fn stake_map(specs: &[StakeSpec]) -> BTreeMap<TxHash, StakeDoc> {
 }
 
 fn check_distribution(run: &Run, specs: &[StakeSpec], epoch: u64, label: &str) {
+    check_distribution_at(run, specs, epoch, label, false);
+    if epoch > 0 {
+        // the same epoch entered by a real block (the stake set is pruned of expired stakes on the way), not by re-labelling
+        check_distribution_at(run, specs, epoch, label, true);
+    }
+}
+
+fn check_distribution_at(run: &Run, specs: &[StakeSpec], epoch: u64, label: &str, crossed: bool) {
     let w = world(NetID::Custom02, out_t(1000, melstructs::Denom::Mel), 0, 0, stake_map(specs));
     let mut sealed = w.genesis.clone().seal(None);
-    if epoch > 0 {
+    if epoch > 0 && !crossed {
         sealed = fabricate(&sealed, &w.db, NetID::Custom02, epoch * 200_000, &[]);
     }
+    if epoch > 0 && crossed {
+        // walk through the earlier epoch boundaries as well, so that every expiry is pruned when a real chain would prune it
+        for e in 1..=epoch {
+            let before = fabricate(&sealed, &w.db, NetID::Custom02, e * 200_000 - 1, &[]);
+            sealed = match guard(|| before.next_unsealed().seal(None)) {
+                Ok(s) => s,
+                Err(p) => {
+                    run.outcome(&format!("crossing-panics(reported under C09):{}", p.msg));
+                    return;
+                }
+            };
+        }
+    }
+    let label = &format!("{}{}", label, if crossed { "/entered-by-a-real-block" } else { "" });
     let hh = sealed.header().hash();
     let keys: Vec<u8> = {
         let mut k: Vec<u8> = specs.iter().map(|s| s.key).collect();
@@ -219,6 +241,22 @@ pub fn run(run: &Run) {
                 ],
                 epoch,
                 format!("epoch-{}-mixed", epoch),
+            ));
+        }
+    }
+    // a key that staked again: its first stake has expired (and is pruned when the epoch is entered by a real block), the second is active
+    for epoch in [1u64, 2, 3] {
+        for (w0, w1, w2) in [(5u128, 5u128, 3u128), (1, 1, 1), (1, 3, 2), (4, 1, 2)] {
+            dists.push((
+                vec![
+                    StakeSpec { key: 0, weight: w0, e_start: 0, e_post_end: 1 },
+                    StakeSpec { key: 0, weight: w1, e_start: 1, e_post_end: 10 },
+                    StakeSpec { key: 1, weight: w2, e_start: 0, e_post_end: 10 },
+                    StakeSpec { key: 2, weight: 1, e_start: 0, e_post_end: 2 },
+                    StakeSpec { key: 2, weight: 1, e_start: 2, e_post_end: 10 },
+                ],
+                epoch,
+                format!("epoch-{}-restaked", epoch),
             ));
         }
     }
